@@ -108,6 +108,14 @@ func (o pathOp) String() string {
 		if o.Label == "null" {
 			return fmt.Sprintf("h:=Child%v (a null setting);SetChild%v=h", o.From, o.A)
 		}
+		switch o.Label {
+		case "merge-primitive":
+			return fmt.Sprintf("h:=Child%v;Merge({%s:OW});SetChild%v=h", o.From, o.From.Name, o.A)
+		case "merge-dict":
+			return fmt.Sprintf("h:=Child%v;Merge({%s:{ow:OW}});SetChild%v=h", o.From, o.From.Name, o.A)
+		case "merge-replace":
+			return fmt.Sprintf("h:=Child%v;Merge({zz:OW},replace);SetChild%v=h", o.From, o.A)
+		}
 		return fmt.Sprintf("h:=Child%v;Remove%v;SetChild%v=h", o.From, o.From, o.A)
 	case opMergeOwn:
 		return fmt.Sprintf("Merge({%s:Child%v})", o.A.Name, o.From)
@@ -227,6 +235,12 @@ func buildPathUniverse(prop string, rich bool) *pathUniverse {
 		// ... and overwritten by another sub-config before it is attached again
 		for _, p := range [][2]addr{{{"a", -1, true}, {"b", -1, true}}, {{"a", 0, true}, {"a", 1, true}}} {
 			u.ops = append(u.ops, pathOp{Kind: opReattach, From: p[0], A: p[1], Label: "overwrite-child"})
+		}
+		// ... and replaced by a Merge on the root before it is attached again
+		for _, l := range []string{"merge-primitive", "merge-dict", "merge-replace"} {
+			for _, p := range [][2]addr{{{"a", -1, true}, {"b", -1, true}}, {{"b", -1, true}, {"a", 0, true}}, {{"a", -1, true}, {"c", -1, true}}} {
+				u.ops = append(u.ops, pathOp{Kind: opReattach, From: p[0], A: p[1], Label: l})
+			}
 		}
 	}
 	return u
@@ -384,6 +398,37 @@ func (st *pathState) apply(o pathOp) *core.Violation {
 				return bad("overwrite-child", err.Error())
 			}
 			tree.Set(st.mroot, o.From.segs(), tree.Dict("ow", tree.LeafN("OW")))
+			if !tree.Set(st.mroot.Clone(), o.A.segs(), tree.NilN()) {
+				return nil
+			}
+		} else if strings.HasPrefix(o.Label, "merge-") {
+			// the child is replaced by a Merge on the root (by a primitive, by the merged copy Merge installs,
+			// or dropped with all other settings under ReplaceValues) before it is attached again
+			if o.From.Idx >= 0 || strings.Contains(o.From.Name, ".") {
+				return nil
+			}
+			var src M
+			var msrc *tree.Node
+			pol := tree.Default
+			switch o.Label {
+			case "merge-primitive":
+				src, msrc = M{o.From.Name: "OW"}, tree.Dict(o.From.Name, tree.LeafN("OW"))
+			case "merge-dict":
+				src, msrc = M{o.From.Name: M{"ow": "OW"}}, tree.Dict(o.From.Name, tree.Dict("ow", tree.LeafN("OW")))
+			case "merge-replace":
+				src, msrc, pol = M{"zz": "OW"}, tree.Dict("zz", tree.LeafN("OW")), tree.Replace
+			}
+			mn = mn.Clone()
+			if err := st.root.Merge(src, append([]ucfg.Option{ucfg.PathSep(".")}, policyOpt[pol]...)...); err != nil {
+				return bad("merge-over", err.Error())
+			}
+			st.mroot = tree.Merge(pol, st.mroot, msrc)
+			if o.Label == "merge-dict" {
+				// (the merge works in place before the copy is installed: the handle holds the merged contents)
+				if m2, r := tree.Get(st.mroot, o.From.segs()); r == tree.OK {
+					mn = m2.Clone()
+				}
+			}
 			if !tree.Set(st.mroot.Clone(), o.A.segs(), tree.NilN()) {
 				return nil
 			}
